@@ -249,7 +249,9 @@ type c25Result struct {
 }
 
 var c25Filters = []string{"*", "", "user", "user:deploy", "query", "member-join", "member-leave,member-failed", "user:deploy,query:c25q1",
-	"member-update", "user:restart,member-join", "query:c25pq", "member-failed", "user:", "bogus", "user,bogus", "member-join,*", "user:deploy:web", "user:deploy:web,user:x", "user:a:b:c"}
+	"member-update", "user:restart,member-join", "query:c25pq", "member-failed", "user:", "bogus", "user,bogus", "member-join,*", "user:deploy:web", "user:deploy:web,user:x", "user:a:b:c",
+	// a named filter of one kind whose name is carried by events of the other kind
+	"query:deploy", "user:c25pq", "query:restart,user:c25pq", "query:deploy:web"}
 
 func c25Case(t *testing.T, rng *rand.Rand) (res c25Result) {
 	res.counts = map[string]int{}
